@@ -21,6 +21,9 @@ func (t *Translator) TransformRequest(ctx context.Context, r *http.Request) (*tr
 	var anthropicReq AnthropicRequest
 	decoder := json.NewDecoder(limitedBody)
 	decoder.DisallowUnknownFields()
+	// numbers inside free-form fields (tool inputs, tool schemas) are forwarded as written:
+	// through float64 an integer above 2^53 would change its value
+	decoder.UseNumber()
 
 	if err := decoder.Decode(&anthropicReq); err != nil {
 		return nil, fmt.Errorf("failed to parse Anthropic request: %w", err)
